@@ -488,6 +488,11 @@ func cmdCheck(args []string) int {
 			}
 			continue
 		}
+		if !claimed && (o.Kind == "pre" || o.Kind == "spawn" || o.Kind == "guard") && o.Status != "discharged" && !noclaim(o.Name) && len(baseline) > 0 {
+			// a call site, spawn or guarded access that is new relative to the baseline and violates the callee's
+			// precondition / the lock discipline: claimed implicitly (otherwise a new bad call site would go unnoticed)
+			claimed = true
+		}
 		if !claimed {
 			if *only == "" {
 				attempted = append(attempted, fmt.Sprintf("%s: %s %s", o.Name, o.Status, o.Detail))
